@@ -38,6 +38,7 @@ func (f *frame) call(in ssa.Instruction, c *ssa.CallCommon, pc string, h *Heap) 
 		f.builtin(in, b, c, args, pc, h, nm, resT)
 		return true
 	}
+	f.callSiteClauses(in, c, args, pc, h)
 	if c.IsInvoke() {
 		recv := f.get(c.Value)
 		return f.invoke(in, c, recv, args, pc, h, nm, resT)
@@ -59,6 +60,120 @@ func (f *frame) call(in ssa.Instruction, c *ssa.CallCommon, pc string, h *Heap) 
 		return f.dynamicCall(in, c, args, pc, h, nm, resT)
 	}
 	return f.staticCall(in, callee, args, binds, pc, h, nm, resT, in.Pos())
+}
+
+// callSiteName: the short name call-site clauses use for the callee of a call instruction.
+func callSiteName(c *ssa.CallCommon) string {
+	if c.IsInvoke() {
+		return c.Method.Name()
+	}
+	if callee := c.StaticCallee(); callee != nil {
+		return callee.Name()
+	}
+	if mc, ok := c.Value.(*ssa.MakeClosure); ok {
+		return mc.Fn.Name()
+	}
+	return c.Value.Name()
+}
+
+// callKeyOf numbers the calls of the function by callee name in source order ("Write#2" is the second call of a
+// function or method named Write).
+func (f *frame) callKeyOf(in ssa.Instruction) string {
+	if f.callOrd == nil {
+		f.callOrd = map[ssa.Instruction]string{}
+		type site struct {
+			in   ssa.Instruction
+			name string
+			pos  token.Pos
+			seq  int
+		}
+		var sites []site
+		n := 0
+		for _, b := range f.fn.Blocks {
+			for _, ins := range b.Instrs {
+				ci, ok := ins.(ssa.CallInstruction)
+				if !ok {
+					continue
+				}
+				if _, isB := ci.Common().Value.(*ssa.Builtin); isB {
+					continue
+				}
+				n++
+				sites = append(sites, site{ins, callSiteName(ci.Common()), ins.Pos(), n})
+			}
+		}
+		sort.SliceStable(sites, func(i, j int) bool {
+			if sites[i].pos != sites[j].pos {
+				return sites[i].pos < sites[j].pos
+			}
+			return sites[i].seq < sites[j].seq
+		})
+		cnt := map[string]int{}
+		for _, s := range sites {
+			cnt[s.name]++
+			f.callOrd[s.in] = fmt.Sprintf("%s#%d", s.name, cnt[s.name])
+		}
+	}
+	return f.callOrd[in]
+}
+
+func (f *frame) callClauses(in ssa.Instruction, kind string) []*Clause {
+	if f.con == nil || len(f.con.Calls) == 0 {
+		return nil
+	}
+	key := f.callKeyOf(in)
+	var out []*Clause
+	for _, c := range f.con.Calls {
+		if c.Kind == kind && fmt.Sprintf("%s#%d", c.CallName, c.CallOrd) == key {
+			out = append(out, c)
+		}
+	}
+	return out
+}
+
+// callEnv: the specification environment just before a call: parameters, source-level locals, and the actual
+// arguments as arg0, arg1, ... (recv for the receiver of an interface call).
+func (f *frame) callEnv(in ssa.Instruction, c *ssa.CallCommon, args []Val, h *Heap) *Env {
+	env := f.specEnv(h, nil, nil)
+	f.bindLocalsI(env, in.Block(), nil, true, nil)
+	env.old = f.entry
+	shift := 0
+	if !c.IsInvoke() && c.Signature() != nil && c.Signature().Recv() != nil && len(args) > 0 {
+		// a statically dispatched method call: the receiver is the first operand
+		env.vars["recv"] = TV{args[0], c.Args[0].Type()}
+		shift = 1
+	}
+	for i, a := range args {
+		if i >= shift && i < len(c.Args) {
+			env.vars[fmt.Sprintf("arg%d", i-shift)] = TV{a, c.Args[i].Type()}
+		}
+	}
+	if c.IsInvoke() {
+		env.vars["recv"] = TV{f.get(c.Value), c.Value.Type()}
+	}
+	return env
+}
+
+// callSiteClauses evaluates the `call Name#k assert ...` and `call Name#k label L` clauses attached to this call.
+func (f *frame) callSiteClauses(in ssa.Instruction, c *ssa.CallCommon, args []Val, pc string, h *Heap) {
+	e := f.e
+	if f.con == nil || len(f.con.Calls) == 0 {
+		return
+	}
+	for _, cl := range f.callClauses(in, "call-label") {
+		env := f.callEnv(in, c, args, h.clone())
+		if f.labels == nil {
+			f.labels = map[string]*Env{}
+		}
+		f.labels[cl.Label] = env
+	}
+	for _, cl := range f.callClauses(in, "call-assert") {
+		env := f.callEnv(in, c, args, h)
+		ts, ls := e.conjuncts(env, cl.Expr, "")
+		for i := range ts {
+			e.ob(f, "assert", f.callKeyOf(in)+": "+cl.clabel(ls[i]), cl.tagsOr(f.tags), pc, ts[i], in.Pos())
+		}
+	}
 }
 
 func (f *frame) staticCall(in ssa.Instruction, callee *ssa.Function, args, binds []Val, pc string, h *Heap, nm string, resT types.Type, pos token.Pos) bool {
